@@ -525,3 +525,19 @@ class Evaluator:
                 return b      # an orthogonal change of frame: parity and support of the operand are unchanged
             raise NotInFragment("method dot")
         raise NotInFragment(f"call {f}")
+
+
+def aligned_points_arg(ev, call):
+    """the `points` argument of a call of the alignment helper, whatever the order / spelling of its two arguments: the one
+    that is not the normal vector (n.x, n.y, n.z)."""
+    cands = list(call.args) + [k.value for k in call.keywords]
+    vals = []
+    for a in cands:
+        try:
+            vals.append(ev.ev(a))
+        except NotInFragment:
+            vals.append(None)
+    pts = [v for v in vals if v is not None and not (v.kind == "vec" and v.comps and v.comps[0] == Poly.atom("n.x"))]
+    if len(pts) != 1:
+        raise NotInFragment("alignment helper: points argument not identified")
+    return pts[0]
